@@ -4,7 +4,10 @@ import HdVerif.Proofs.SRContentSeq
 Property theorems only.  They are about the executable model `Model/SRContentSeq.lean` of
 `highdicom.sr.value_types.ContentSequence` (as repaired by the `fix:` commits listed in
 `findings/C14.json`); the correspondence check runs that model and the class on the same histories and
-compares list, every `find`, `index`, `in` and `get_nodes` after every step.
+compares list, every `find`, `index`, `in` and `get_nodes` after every step.  The relationship-type decision
+trees of `__init__`, `append`, `insert` and `__setitem__` inside the model are the definitions REGENERATED from
+the current source (`HdVerif.Gen.csCtorFlags/csCtorCheck/csAppendCheck/csInsertCheck/csSetitemCheck`, tie T), so
+the enforcement theorems below are re-checked against what the code says now.
 
 `Reachable s`: `s` is the state after ANY construction (constructor, `from_sequence`, the
 `ContentSequence` attribute setter) of a root, non-root SR or non-SR sequence followed by ANY finite
@@ -90,6 +93,15 @@ theorem constructor_refuses (items : List Item) (isRoot isSr : Bool) (h : ∃ it
   split
   · exact ⟨_, rfl⟩
   · exact ⟨e, he⟩
+
+/-- The constructor accepts exactly: flags consistent (root ⇒ SR) and every item a container without
+relationship type (root) / with a relationship type (non-root SR) / without one (non-SR) — stated over the
+decision tree regenerated from `ContentSequence.__init__`. -/
+theorem constructor_accepts_iff (items : List Item) (isRoot isSr : Bool) :
+    (∃ s, construct items isRoot isSr = .ok s) ↔
+      ((isRoot = true → isSr = true) ∧ ∀ it ∈ items,
+        (if isRoot then it.rel = none ∧ it.isContainer = true else if isSr then it.rel ≠ none else it.rel = none)) :=
+  construct_iff items isRoot isSr
 
 theorem append_enforces {s : Seq} (h : Reachable s) (it : Item) :
     (¬ relOk s.isRoot s.isSr it → append s it = (s, some .attribute)) ∧
